@@ -191,7 +191,11 @@ func (gen *generator) addDefsToModule() {
 func (gen *generator) addTypeDefsToModule() {
 	// 8a. Add IR type definitions to the IR module in natural sorting order.
 	typeNames := make([]string, 0, len(gen.old.typeDefs))
-	for name := range gen.old.typeDefs {
+	for name, old := range gen.old.typeDefs {
+		if _, ok := old.Typ().(*ast.NamedType); ok {
+			// Another name of a type definition that is added under its own name.
+			continue
+		}
 		typeNames = append(typeNames, name)
 	}
 	natsort.Strings(typeNames)
